@@ -39,6 +39,10 @@ func verifChunk(b []byte) {
 	}
 }
 
+// VerifStringBucket reports the bucket of the serializer's string de-duplication table a string falls into
+// (the hash is seeded per process).
+func VerifStringBucket(b []byte) uint32 { return uint32(memHash(b) & stringmask) }
+
 // VerifParseNumber exposes parseNumber.
 func VerifParseNumber(buf []byte) (id, val uint64) { return parseNumber(buf) }
 
